@@ -167,8 +167,10 @@ class SelectEventLoop(EventLoop):
         """
         Call all the registered idle callbacks.
         """
-        for callback in self._idle_callbacks.values():
-            callback()
+        # callbacks may add or remove idle callbacks; one removed meanwhile is not called
+        for handle, callback in tuple(self._idle_callbacks.items()):
+            if handle in self._idle_callbacks:
+                callback()
 
     def run(self) -> None:
         """
